@@ -109,9 +109,12 @@ def gen_call(rng, o, depth):
     name = rng.choice(CUSTOM_FUNCS)
     if o.named and rng.random() < 0.4:
         n = rng.randint(1, o.max_named)
-        names = rng.sample(["k", "v", "w", "p1", "p2", "mode", "n"], n)
-        return ("call", name, tuple(("np", T.ident(nm), gen_expr(rng, o, depth - 1))
-                                    for nm in names))
+        names = rng.sample(["k", "v", "w", "p1", "p2", "mode", "n", "notes", "index", "year",
+                            "length", "anyone"], n)
+        # a parameter name is an identifier like any other: it may carry a namespace
+        return ("call", name, tuple(
+            ("np", T.ident(nm, rng.choice(NAMESPACES) if o.namespaces and rng.random() < 0.25 else ()),
+             gen_expr(rng, o, depth - 1)) for nm in names))
     n = rng.randint(0, 4)
     return ("call", name, tuple(gen_expr(rng, o, depth - 1) for _ in range(n)))
 
@@ -134,6 +137,13 @@ def gen_lambda(rng, o, depth):
 
 def gen_expr(rng, o, depth, var=None, in_list=False):
     if depth <= 0:
+        if var and o.namespaces and rng.random() < 0.06:
+            # a namespace-qualified FIELD whose last segment is spelled like the lambda
+            # variable in scope (ns.x inside any(x: ...)): free, not the variable
+            t = T.ident(var, rng.choice(NAMESPACES))
+            for _ in range(rng.randint(0, 2)):
+                t = ("attr", t, rng.choice(ATTRS))
+            return t
         if var and rng.random() < 0.5:
             t = T.ident(var)
             for _ in range(rng.randint(1, 2)):
